@@ -89,6 +89,9 @@ func runC07(c *engine.Ctx, tier string) {
 	stateless(c)
 	// (6) replay on start
 	replay(c, "C07.6", []string{pkgProposalCtl, pkgTransactionCtl, pkgConfigCtl, pkgMastershipCtl}, 6)
+	// replay after a restart hands the controllers records that carry their log index and version: the
+	// transaction watcher enqueues the index, and every later write is conditional on the version
+	versionStamping(c, "C07.5", pkgStoreTxV2, true, 4)
 }
 
 // afterSet keeps only applied-cursor writes that happen on a path on which the device Set was
